@@ -459,8 +459,21 @@ class StmtMixin(object):
         self.block = []
         self.emit(Ghost('loop%s.body_begin' % n.get('_ord')))
         self.loop_keys.append((n.get('_ord'), 'sym'))
+        ns_end = None
         try:
-            self.scoped(body_n)
+            # like scoped(), but the names visible at the end of the body are recorded (ghost code / local lemmas see body locals)
+            self.frame.scopes.append({})
+            try:
+                if body_n.get('kind') == 'CompoundStmt':
+                    for c in kids(body_n):
+                        if self.dead:
+                            break
+                        self.stmt(c)
+                else:
+                    self.stmt(body_n)
+                ns_end = self.namespace()
+            finally:
+                self.frame.scopes.pop()
         finally:
             self.loop_keys.pop()
         if lab[1]:
@@ -475,6 +488,7 @@ class StmtMixin(object):
         self.frame.continue_label = saved_cont
         lp = Loop(key, cvar.name, cond, step, body, src=where(n))
         lp.ns = ns
+        lp.ns_end = ns_end or ns
         lp.uservar = var
         lp.init = init_val
         self.emit(lp)
